@@ -39,7 +39,7 @@ def run(tier, seed):
     os.makedirs(wd)
     rep.wd = wd
     S = special.Simple(rep)
-    archs = ["sse2", "avx2", "avx512f"] if tier == "thorough" else ["sse2"]
+    archs = (["sse2", "avx2", "avx512f"] if not os.environ.get("C14_SSE2_ONLY") else ["sse2"]) if tier == "thorough" else ["sse2"]
     tu = ["#include <xsimd/xsimd.hpp>", "#include <cstdint>"]
     roots = []
     for a in archs:
@@ -131,7 +131,7 @@ def run(tier, seed):
     # (attempted in the thorough tier); the iteration bound is discharged as unwinding assertions of plain CBMC on the fully inlined
     # function instead -- complete for the claim "at most K iterations for every argument in the range", labelled as such in the evidence
     for n in sorted(loopfn):
-        if loopfn[n][1] in ("tgamma_other", "ipow"):
+        if loopfn[n][1] in ("tgamma_other", "ipow") or os.environ.get("C14_NO_UNWIND"):
             continue
         if tier == "quick" and loopfn[n][1] != "lgamma_impl<float>::other":
             rep.bounded.append({"function": fnmap[n]["demangled"][:140], "status": "not run in the quick tier (query needs > 15 min); run in the thorough tier"})
@@ -145,7 +145,7 @@ def run(tier, seed):
                # polynomial kernels evaluated after / between the loops (straight-line Horner schemes, dozens of fused multiply-adds)
                re.search(r"xsimd::kernel::detail::(gammaln\w+<[^()]*>|tgamma_kernel<.*>::compute)\(", f["demangled"]))}
     # (ipow keeps its scalar locals in memory -- no SROA -- so that the loop contract can name the source variable b)
-    lj = [{"target": n, "out": os.path.join(wd, "W_%s.c" % sha(n)), "opts": {"loops_as_while": True, "sroa": loopfn[n][1] != "ipow"}, "keep": sorted(opaque)} for n in sorted(loopfn)
+    lj = [{"target": n, "out": os.path.join(wd, "W_%s.c" % sha(n)), "opts": {"loops_as_while": True, "sroa": loopfn[n][1] != "ipow", "cut_after_loops": loopfn[n][1].startswith("lgamma")}, "keep": sorted(opaque)} for n in sorted(loopfn)
           if loopfn[n][1] in ("tgamma_other", "ipow") or tier == "thorough"]
     lres = pipeline.run_ll2c(bc, lj, wd, "c14w", keep_all=keep)
     # the recursion lgamma<double> -> large_negative -> lgamma(|x|) is cut at the public lgamma (stubbed: its own obligations are separate)
